@@ -19,6 +19,10 @@ for a in f['adts']:
     if a.get('kind') == 'Struct' and len(a['variants']) == 1:
         adts[a['path']] = [[fl['name'], fl['ty']] for fl in a['variants'][0]['fields']]
 json.dump(adts, open(os.path.join(HERE, 'analysis', 'known_structs.json'), 'w'), indent=0, sort_keys=True)
+def adt_sig(a):
+    self_name = a['path']
+    return json.dumps([a.get('kind'), [[v['name'] if v['name'] != self_name.rsplit('::', 1)[-1] else '$self', [[fl['name'], fl['ty'].replace(self_name, '$self')] for fl in v['fields']]] for v in a['variants']]])
+json.dump({a['path']: adt_sig(a) for a in f['adts']}, open(os.path.join(HERE, 'analysis', 'known_adts.json'), 'w'), indent=0, sort_keys=True)
 open(os.path.join(HERE, 'analysis', 'known_functions.txt'), 'w').write('\n'.join(paths) + '\n')
 json.dump(sigs, open(os.path.join(HERE, 'analysis', 'known_signatures.json'), 'w'), indent=0, sort_keys=True)
 print('%d bodies, %d function signatures' % (len(paths), len(sigs)))
